@@ -232,6 +232,9 @@ func (db *SpecDB) loadFile(path string, defaultPkg string) error {
 			continue
 		case "global":
 			fields := strings.Fields(rest)
+			if len(fields) == 3 && fields[1] == "guarded_by" {
+				fields = []string{fields[0], "guarded_by:" + fields[2]}
+			}
 			if len(fields) != 2 {
 				return fmt.Errorf("%s:%d: global NAME KIND", path, ln)
 			}
@@ -468,11 +471,18 @@ func (fs *FuncSpec) addClause(t, file string, ln int) error {
 	case "at":
 		// at call <callee>#<k>: assert e   |  at call <callee>#<k>: ghost x = e
 		r := strings.TrimPrefix(rest, "call ")
+		isSend := strings.HasPrefix(rest, "send ")
+		if isSend {
+			r = strings.TrimSpace(strings.TrimPrefix(rest, "send "))
+		}
 		i := strings.Index(r, ":")
 		if i < 0 {
 			return fmt.Errorf("at call NAME#K: assert e")
 		}
 		point := strings.TrimSpace(r[:i])
+		if isSend {
+			point = "send:" + point
+		}
 		body := strings.TrimSpace(r[i+1:])
 		ord := -1
 		if j := strings.Index(point, "#"); j >= 0 {
